@@ -17,11 +17,11 @@ func init() {
 		Cases: func(tier string) int {
 			switch tier {
 			case "thorough":
-				return 2500000
+				return 6000000
 			case "race":
 				return 50000
 			}
-			return 400000
+			return 1000000
 		},
 		Run:            c08Run,
 		Floor:          func(tier string) int { return 5000 },
